@@ -208,6 +208,14 @@ def replay(pid, path):
         print("this replay file carries no executable counterexample (verifier output only):")
         print((rep.get("verifier_output") or "")[:3000])
         return 0
+    cexr = rep.get("counterexample") or {}
+    if isinstance(cexr, dict) and cexr.get("kani_twin") or (rep.get("backend") == "kani"):
+        from . import kani as kn
+        log, rr = kn.replay({rep.get("unit"): src})
+        print(log[-2500:])
+        ok = bool(rr.get(rep.get("unit")))
+        print("replay status:", "reproduced" if ok else "not_reproduced")
+        return 1 if ok else 0
     st, log = run_replay(src)
     print(log[-2500:])
     print("replay status:", st)
